@@ -36,8 +36,8 @@ static int define (struct grammar *g, int d)
 }
 static int def_ok (int d) { return d == 0 || d == 1; }
 
-/* inputs: per good definition a sentence and a non-sentence */
-static const char *inputs[2][2];
+/* inputs: per good definition a sentence, a non-sentence and two more sentences */
+static const char *inputs[2][4];
 static void set_input (int d, int which)
 {
   const char *s = inputs[d][which]; int i, j;
@@ -49,6 +49,8 @@ struct outcome { int rc, amb, nerr, err[4], ign[4], rec[4]; struct yaep_tree_nod
 #define MAXBLK 3000
 static void *blocks[MAXBLK]; static int nblocks;
 static void *h_alloc (int n) { void *p = malloc ((size_t) n); if (nblocks < MAXBLK) blocks[nblocks++] = p; return p; }
+/* the trees of a parse are released before the next call: nothing of a later result may live in them */
+static void release_trees (void) { int i; for (i = 0; i < nblocks; i++) free (blocks[i]); nblocks = 0; }
 static void do_parse (struct grammar *g, struct outcome *o)
 {
   int i;
@@ -82,16 +84,31 @@ static void configure (struct grammar *g, const struct ostate *s)
 
 void harness (void)
 {
-  int K = (int) sx_param ("steps", 3), nobj = (int) sx_param ("objects", 2), step, i; long base;
+  int K = (int) sx_param ("steps", 3), nobj = (int) sx_param ("objects", 2), predef = (int) sx_param ("predef", 0), la0 = (int) sx_param ("la0", 1), step, i; long base;
   def_grammar[0] = (int) sx_param ("g0", 2); def_grammar[1] = (int) sx_param ("g1", 9);
-  inputs[0][0] = "a+a*a"; inputs[0][1] = "a+*a"; inputs[1][0] = "a;a;"; inputs[1][1] = "a;ba;";
+  for (i = 0; i < 2; i++)
+    { /* a sentence, a non-sentence and two more sentences of each good definition */
+      static const char *const in3[4] = { "a+a*a", "a+*a", "a*a+a", "a" }, *const in10[4] = { "a;a;", "a;ba;", "a;", "a;a;a;" }, *const in7[4] = { "abba", "abab", "baab", "bb" };
+      const char *id = catalogue[def_grammar[i]].id; const char *const *in = strcmp (id, "G3") == 0 ? in3 : strcmp (id, "G10") == 0 ? in10 : in7;
+      int k;
+      sx_assume (in != in7 || strcmp (id, "G7") == 0);
+      for (k = 0; k < 4; k++) inputs[i][k] = in[k];
+    }
   base = sx_live_heap_blocks ();
   for (i = 0; i < NOBJ; i++) { ob[i].g = NULL; ob[i].def = -1; }
   /* the objects exist (fresh) at the start of the history; `create' is possible again after `free' */
-  for (i = 0; i < nobj; i++) { ob[i].g = yaep_create_grammar (); sx_assume (ob[i].g != NULL); ob[i].la = 1; ob[i].one = 1; ob[i].cost = 0; ob[i].rec = 1; }
+  for (i = 0; i < nobj; i++)
+    {
+      ob[i].g = yaep_create_grammar (); sx_assume (ob[i].g != NULL); ob[i].la = 1; ob[i].one = 1; ob[i].cost = 0; ob[i].rec = 1;
+      if (predef)
+        { /* the history starts with defined objects (object i has definition i mod 2) under lookahead level la0 */
+          sx_assert (define (ob[i].g, i % 2) == 0, "good definition accepted");
+          ob[i].def = i % 2; ob[i].la = la0; yaep_set_lookahead_level (ob[i].g, la0);
+        }
+    }
   for (step = 0; step < K; step++)
     {
-      int act = sx_choice ("action", 13), t = sx_choice ("object", nobj);
+      int act = sx_choice ("action", 15), t = sx_choice ("object", nobj);
       struct ostate *s = &ob[t];
       sx_observe ("action", act); sx_observe ("object", t);
       if (act == 0)
@@ -121,14 +138,14 @@ void harness (void)
           s->def = rc == 0 ? d : -1;
         }
       else if (act <= 10)
-        { /* settings: 8 lookahead 0/2, 9 all parses, 10 cost on + recovery off */
+        { /* settings: 8 next lookahead level (1 -> 2 -> 0 -> 1), 9 all parses, 10 cost on + recovery off */
           sx_assume (s->g != NULL);
-          if (act == 8) { s->la = s->la == 0 ? 2 : 0; yaep_set_lookahead_level (s->g, s->la); }
+          if (act == 8) { s->la = (s->la + 1) % 3; yaep_set_lookahead_level (s->g, s->la); }
           else if (act == 9) { s->one = !s->one; yaep_set_one_parse_flag (s->g, s->one); }
           else { s->cost = !s->cost; s->rec = !s->rec; yaep_set_cost_flag (s->g, s->cost); yaep_set_error_recovery_flag (s->g, s->rec); }
         }
       else
-        { /* parse: 11 sentence, 12 non-sentence (of the current definition, or of definition 0 if there is none) */
+        { /* parse: 11 sentence, 12 non-sentence, 13 and 14 other sentences (of the current definition, or of definition 0 if there is none) */
           struct outcome a, b; struct grammar *f; int d = s->def >= 0 ? s->def : 0;
           sx_assume (s->g != NULL);
           set_input (d, act - 11);
@@ -147,6 +164,7 @@ void harness (void)
               for (i = 0; i < 4; i++) sx_assert (a.err[i] == b.err[i] && a.ign[i] == b.ign[i] && a.rec[i] == b.rec[i], "same syntax_error arguments as on a fresh object");
               sx_assert (teq (a.root, b.root, 0), "same tree as on a fresh object");
             }
+          release_trees ();
         }
     }
   /* free everything in a symbolic order; the library must hold no memory afterwards */
@@ -154,7 +172,7 @@ void harness (void)
     int first = sx_choice ("free_first", nobj);
     for (i = 0; i < nobj; i++) { int k = (first + i) % nobj; if (ob[k].g) { yaep_free_grammar (ob[k].g); ob[k].g = NULL; } }
   }
-  for (i = 0; i < nblocks; i++) free (blocks[i]);
+  release_trees ();
   sx_observe ("live", sx_live_heap_blocks () - base);
   sx_assert (sx_live_heap_blocks () == base, "after all objects and trees are freed the library holds no memory");
   p_witness ();
